@@ -155,8 +155,8 @@ PROPS = {
                      "behaviours (exhaustive depth 2 + simulated depth 14) replayed on concrete pools; TLC trace validation of per-slot digests after every step",
         "level_text": "MC_C16.tla lists every public operation with its operand and result types over a pool of 2 points, 2 durations, 1 zone, "
                       "2 recurrences and 1 truncated point; TLC checks the design is append-only and emits every operation sequence to depth 2 plus long simulated ones. "
-                      "Each is run on concrete boundary values; after every step the harness re-snapshots every slot (str, every stored field "
-                      "recursively, hash) and the trace spec requires every earlier digest unchanged - so mutation of an operand, of an earlier "
+                      "Each is run on concrete boundary values; after every step the harness re-snapshots every slot (str, hash and the public state - get_props / public "
+                      "properties - recursively) and the trace spec requires every earlier digest unchanged - so mutation of an operand, of an earlier "
                       "result, or through shared state is caught at the step where it happens.",
         "drivers": ["c16"],
         "mc": [{"module": "MC_C16.tla", "cfg": "MC_C16.cfg", "cfg_quick": "MC_C16_quick.cfg"}],
@@ -164,7 +164,7 @@ PROPS = {
         "rule": "one case = one operation sequence on one concrete pool; every case is non-trivial (each step re-inspects 7-20 slots)",
         "exhaustive_part": {"quick": "6000 of the 19 356 depth-2 operation sequences (seeded sample) + 400 simulated depth-14 sequences",
                             "thorough": "all 19 356 depth-2 sequences x 2 pools + 6000 simulated depth-14 sequences x 3 pools"},
-        "assumptions": TRUST + ["the digest function snap() of harness/drivers/c16.py observes every stored field"],
+        "assumptions": TRUST + ["the digest function snap() of harness/drivers/c16.py observes the whole public state (str, hash, get_props / public properties, recursively)"],
     },
     "C18": {
         "technique": "TLA+ spec (Ops.tla LocalZoneFn/EffectiveOffsetSec, Text.tla zone spellings, epoch on the timeline) + TLC trace validation; exhaustive enumeration of whole-minute zone configurations",
